@@ -43,7 +43,7 @@ pub fn nthreads() -> usize {
         .unwrap_or_else(|| std::thread::available_parallelism().map(|n| n.get()).unwrap_or(4))
 }
 
-#[derive(Clone, Debug)]
+#[derive(Clone, Debug, serde::Serialize, serde::Deserialize)]
 pub struct Violation {
     /// stable identification used to match the known-findings file
     pub signature: String,
@@ -53,7 +53,7 @@ pub struct Violation {
 }
 
 /// Per-thread accumulator, merged at the end.
-#[derive(Default, Clone, Debug)]
+#[derive(Default, Clone, Debug, serde::Serialize, serde::Deserialize)]
 pub struct Acc {
     pub evaluations: u64,
     pub states: u64,
